@@ -69,6 +69,27 @@ type TimeInterval struct {
 	Location    *Location         `yaml:"location,flow,omitempty" json:"location,omitempty"`
 }
 
+// UnmarshalYAML implements the Unmarshaller interface for TimeInterval.
+func (tp *TimeInterval) UnmarshalYAML(unmarshal func(any) error) error {
+	type plain TimeInterval
+	if err := unmarshal((*plain)(tp)); err != nil {
+		return err
+	}
+	// The YAML decoder does not call the unmarshaller of a list element that is
+	// null and leaves a zero range behind, which none of them would accept.
+	for _, r := range tp.Times {
+		if r.StartMinute >= r.EndMinute {
+			return errors.New("start time cannot be equal or greater than end time")
+		}
+	}
+	for _, r := range tp.DaysOfMonth {
+		if r.Begin == 0 || r.End == 0 {
+			return errors.New("0 is not a valid day of the month: out of range")
+		}
+	}
+	return nil
+}
+
 // TimeRange represents a range of minutes within a 1440 minute day, exclusive of the End minute. A day consists of 1440 minutes.
 // For example, 4:00PM to End of the day would Begin at 1020 and End at 1440.
 type TimeRange struct {
